@@ -299,7 +299,7 @@ def relu_backward(grad:np.ndarray, a:np.ndarray) -> np.ndarray:
 
 
 def leaky_relu_forward(a:np.ndarray, neg_slope:float) -> np.ndarray:
-    return np.maximum(neg_slope * a, a)
+    return np.where(a > 0, a, neg_slope * a) # also right for slopes > 1 (np.maximum picked the wrong branch)
 
 def leaky_relu_backward(grad:np.ndarray, a:np.ndarray, neg_slope:float) -> np.ndarray:
     return grad * ((a > 0) + neg_slope * (a <= 0))
